@@ -169,4 +169,28 @@ def onCap (p : Option Ex → Bool) : ExCap → Bool
 def pureOpt : Option Ex → Bool | some e => pure e | none => false
 def constSliceOpt : Option Ex → Bool | some e => constSlice e | none => false
 
+/-- a type predicate on a capture: every element of a `$*xs` capture -/
+def onTyCap (p : Ty → Bool) : TyCap → Bool
+  | .one t => p t
+  | .list ts => ts.all p
+
+/-- `OfKind` on a capture (`none`: not a documented kind): every element of a `$*xs` capture -/
+def ofKindCap (underlying : Bool) (kind : String) : TyCap → Option Bool
+  | .one t => ofKind underlying kind t
+  | .list ts => (ts.mapM (ofKind underlying kind)).map (·.all id)
+
+/-- What the property prescribes for a predicate at a site; `none`: the property does not constrain this
+predicate/argument there (undocumented argument, or no go/types answer supplied for a delegated relation). -/
+def specPred : Pred → Site → Option Bool
+  | .ofKind u kind, s => ofKindCap u kind s.ty
+  | .hasPointers, s => some (onTyCap containsPointer s.ty)
+  | .pure, s => some (onCap pureOpt s.ex)
+  | .constSlice, s => some (onCap constSliceOpt s.ex)
+  | .objectIs name, s => (objKindOfString name).map fun k => onCap (objectIs k) s.ex
+  | .isGlobal, s => some (onCap objectIsGlobal s.ex)
+  | .isVariadic, s => some (onCap objectIsVariadicParam s.ex)
+  | .nodeIs known tag, s => if known then some (nodeIs s.node tag) else none
+  | .parentIs known tag, s => if known then some (nodeIs s.parent tag) else none
+  | .rel _, s => s.oracle.map relHolds
+
 end SpecC02
